@@ -9,6 +9,8 @@ import (
 	"io"
 	"math"
 	"math/big"
+	"syscall"
+	"unicode/utf8"
 
 	"github.com/decred/dcrd/dcrec/secp256k1/v4"
 	"github.com/ipfs/go-cid"
@@ -59,7 +61,7 @@ type writerSealer interface {
 func c08HashSub() *engine.Sub {
 	return &engine.Sub{
 		Name: "cid-arithmetic",
-		Rule: "every token of the d<=1 option universe x algorithm, plus tokens with fields of 600, 1023, 1024, 5120 and 70000 bytes and the size-threshold tokens of C07 (one field grown to 23..4096, two of them to 65536): CID of ToSealed, of ToSealedWriter (vs the bytes the sink received), of FromSealed and FromSealedReader (generic and typed, 6 chunkings) all equal 01 71 12 20 || sha256(bytes) computed with crypto/sha256; non-trivial = constructor-accepted tokens",
+		Rule: "every token of the d<=1 option universe x algorithm, plus tokens with fields of 600, 1023, 1024, 5120 and 70000 bytes and the size-threshold tokens of C07 (one field grown to 23..4096, two of them to 65536): CID of ToSealed, of ToSealedWriter (vs the bytes the sink received; also into a non-empty buffer, and - base tokens - with one write call interrupted by EINTR / EAGAIN at every position), of FromSealed and FromSealedReader (generic and typed, 6 chunkings) all equal 01 71 12 20 || sha256(bytes) computed with crypto/sha256; non-trivial = constructor-accepted tokens",
 		Bound: func(t string) string {
 			return "d<=1 option deviations, 4 (quick) / 7 (thorough) algorithms, 6 chunkings"
 		},
@@ -176,6 +178,26 @@ func c08HashSub() *engine.Sub {
 					break
 				}
 			}
+			// a sink whose Write fails once with an error that invites a retry (EINTR / EAGAIN), taking half of the
+			// data or nothing, and accepts everything afterwards: the call may fail; if it reports success, the CID
+			// is the address of what the sink holds (base tokens only: one run per write call)
+			if len(cs.Spec.Opts) == 0 {
+				probe := &engine.PosWriter{}
+				if _, err := tok.(writerSealer).ToSealedWriter(probe, key.Priv); err == nil {
+					for call := 1; call <= probe.Calls; call++ {
+						for _, short := range []bool{false, true} {
+							for _, werr := range []error{syscall.EINTR, syscall.EAGAIN} {
+								w := &engine.PosWriter{FailCall: call, Short: short, Transient: true, Err: werr}
+								c5, err := tok.(writerSealer).ToSealedWriter(w, key.Priv)
+								ctx.Eval(1)
+								if err == nil && w.Hit && !c5.Equals(refCID(w.Buf)) {
+									ctx.Failf(cs, "cid/tosealedwriter-after-interrupted-write", "ToSealedWriter of %s reports success and CID %s after write call %d failed with %v (short=%v); the sink holds %d bytes whose address is %s", cs.Spec, c5, call, werr, short, len(w.Buf), refCID(w.Buf))
+								}
+							}
+						}
+					}
+				}
+			}
 			type dec struct {
 				name string
 				f    func(r io.Reader, b []byte) (cid.Cid, error)
@@ -277,6 +299,12 @@ func reencSites(root *refmodel.CborItem) []reenc {
 		}
 		switch x.Major {
 		case 2, 3:
+			// the same octets under the other string type (byte string <-> text string): for an item of the signed
+			// payload this changes the content (and is refused with the signature); for the signature item it is a
+			// second spelling of the same envelope
+			if x.Major == 2 || utf8.Valid(x.Data) {
+				sites = append(sites, reenc{Kind: "string-type-swapped", Path: p})
+			}
 			sites = append(sites, reenc{Kind: "indefinite-length", Path: p})
 			if len(x.Data) >= 2 {
 				sites = append(sites, reenc{Kind: "chunked-string", Path: p, Arg: len(x.Data) / 2})
@@ -328,6 +356,13 @@ func applyReenc(root *refmodel.CborItem, r reenc) bool {
 		return true // handled at byte level
 	}
 	x := root.At(r.Path)
+	if r.Kind == "string-type-swapped" {
+		if x == nil || (x.Major != 2 && x.Major != 3) || x.Indef {
+			return false
+		}
+		x.Major = 5 - x.Major
+		return true
+	}
 	switch r.Kind {
 	case "nonminimal-head":
 		x.Width = r.Arg
@@ -576,7 +611,7 @@ func c08CanonSub() *engine.Sub {
 	return &engine.Sub{
 		Name:   "canonical-bytes",
 		Repeat: true,
-		Rule:   "sealed base tokens are parsed with the harness' own CBOR item parser; every single (quick) / every pair (thorough) of data-preserving re-encoding sites is applied: non-minimal head widths, indefinite lengths, chunked strings, map key permutations, narrower floats, undefined for null, spurious tags, extra outer element, trailing bytes; plus key-less signature re-encodings (ECDSA s -> n-s, DER variants, RSA leading zero added, and - on RSA tokens whose nonce was searched until the signature starts with a zero octet - stripped; Ed25519 s+L). A decoder must reject each re-encoding (two accepted byte strings with the same signed content would have different CIDs); non-trivial = re-encoded bytes differ from the original",
+		Rule:   "sealed base tokens are parsed with the harness' own CBOR item parser; every single (quick) / every pair (thorough) of data-preserving re-encoding sites is applied: non-minimal head widths, indefinite lengths, chunked strings, map key permutations, narrower floats, undefined for null, byte string <-> text string with the same octets (incl. the signature item), spurious tags, extra outer element, trailing bytes; plus key-less signature re-encodings (ECDSA s -> n-s, DER variants, RSA leading zero added, and - on RSA tokens whose nonce was searched until the signature starts with a zero octet - stripped; Ed25519 s+L). A decoder must reject each re-encoding (two accepted byte strings with the same signed content would have different CIDs); non-trivial = re-encoded bytes differ from the original",
 		Bound: func(t string) string {
 			if t == "thorough" {
 				return "3 base tokens x 5 algorithms; all single sites and all pairs of sites of distinct kinds on the Ed25519 tokens"
